@@ -670,10 +670,31 @@ func (ex *Exec) unrollLoop(fr *Frame, rt *bodyRT, li *loopInfo, n int, pc *Term,
 	}
 	cur := []incoming{{nil, pc, st}}
 	// n body iterations need n+1 evaluations of the header
+	// the last pass only decides whether the loop would go on: when the header is a single test block
+	// (one successor inside the loop, one outside) only that block is executed and the edge into the body
+	// is what the unwind obligation rules out; the body is not executed an (n+1)-th time
+	simpleHeader := false
+	if len(li.header.Succs) == 2 {
+		in0, in1 := li.body[li.header.Succs[0]], li.body[li.header.Succs[1]]
+		simpleHeader = in0 != in1
+	}
 	for iter := 0; iter <= n && len(cur) > 0; iter++ {
 		var backIn []incoming
 		fr.unrolling[li.header] = &backIn
 		inLocal := map[*ssa.BasicBlock][]incoming{li.header: cur}
+		if iter == n && simpleHeader {
+			hdr := map[*ssa.BasicBlock]bool{li.header: true}
+			ex.execBlocks(fr, rt, []*ssa.BasicBlock{li.header}, inLocal, hdr, func(from, to *ssa.BasicBlock, p *Term, s *State) {
+				if li.body[to] {
+					backIn = append(backIn, incoming{from, p, s}) // the loop would continue
+					return
+				}
+				outer(from, to, p, s)
+			})
+			delete(fr.unrolling, li.header)
+			cur = backIn
+			break
+		}
 		ex.execBlocks(fr, rt, bodyOrder, inLocal, li.body, func(from, to *ssa.BasicBlock, p *Term, s *State) {
 			outer(from, to, p, s)
 		})
